@@ -252,6 +252,28 @@ func c16Shape(c *Ctx, prog *load.Program, name string) {
 			}
 		}
 	}
+	// the instances cover the lengths 0..3; a branch that distinguishes larger lengths (a batch-size threshold, a
+	// special case for some length above 3) would be decided by none of them and by no loop argument
+	for _, b := range fn.Blocks {
+		ifi, ok := b.Instrs[len(b.Instrs)-1].(*ssa.If)
+		if !ok {
+			continue
+		}
+		cmp, ok := ifi.Cond.(*ssa.BinOp)
+		if !ok {
+			continue
+		}
+		for _, pr := range [][2]ssa.Value{{cmp.X, cmp.Y}, {cmp.Y, cmp.X}} {
+			if !equalL(pr[0], 0) {
+				continue
+			}
+			if k, isC := pr[1].(*ssa.Const); isC && k.Value != nil {
+				if k.Int64() > 3 {
+					good, detail = false, fmt.Sprintf("the routine branches on the list length against %d (%s): lengths above 3 are decided by the loop argument only, which does not cover a length-dependent special case", k.Int64(), PosStr(prog, cmp.Pos()))
+				}
+			}
+		}
+	}
 	if loops != 3 {
 		good, detail = false, fmt.Sprintf("%d loops bounded by len(scalars), expected 3 (preparation, high nibbles, low nibbles)", loops)
 	}
